@@ -123,18 +123,21 @@ def finish(R, level, rule, assumptions, trusted=None):
 def check_C11(tier, replay=None):
     R = Result("C11", tier)
     dev = z.dev_set()
-    devs = tla_set([d for d in dev if d in ("D03", "D04")])
+    devs = tla_set([d for d in dev if d in ("D03", "D04", "D28", "D28b")])
     runs = []
+    F3, F4 = '{"f1.xsd","f2.xsd","f3.xsd"}', '{"f1.xsd","f2.xsd","f3.xsd","f4.xsd"}'
     if tier == "quick":
-        runs.append(("MC_C11_f3", {"File": '{"f1.xsd","f2.xsd","f3.xsd"}', "FileSeq": "<- FileSeq3", "Extras": "<- NoExtras", "Siblings": "<- Sib3", "MaxCalls": "2"}))
+        runs.append(("MC_C11_f3", {"File": F3, "FileSeq": "<- FileSeq3", "Extras": "<- NoExtras", "Siblings": "<- Sib3", "MaxCalls": "2", "RefsOn": "FALSE"}))
+        runs.append(("MC_C11_f3refs", {"File": F3, "FileSeq": "<- FileSeq3", "Extras": "<- NoExtras", "Siblings": "<- NoSib", "MaxCalls": "1", "RefsOn": "TRUE"}))
     else:
-        runs.append(("MC_C11_f4", {"File": '{"f1.xsd","f2.xsd","f3.xsd","f4.xsd"}', "FileSeq": "<- FileSeq4", "Extras": "<- NoExtras", "Siblings": "<- Sib3", "MaxCalls": "1"}))
-        runs.append(("MC_C11_f3x", {"File": '{"f1.xsd","f2.xsd","f3.xsd"}', "FileSeq": "<- FileSeq3", "Extras": "<- AllExtras", "Siblings": "<- Sib3", "MaxCalls": "3"}))
+        runs.append(("MC_C11_f4", {"File": F4, "FileSeq": "<- FileSeq4", "Extras": "<- NoExtras", "Siblings": "<- Sib3", "MaxCalls": "1", "RefsOn": "FALSE"}))
+        runs.append(("MC_C11_f3x", {"File": F3, "FileSeq": "<- FileSeq3", "Extras": "<- AllExtras", "Siblings": "<- Sib3", "MaxCalls": "3", "RefsOn": "FALSE"}))
+        runs.append(("MC_C11_f4refs", {"File": F4, "FileSeq": "<- FileSeq4", "Extras": "<- NoExtras", "Siblings": "<- NoSib", "MaxCalls": "1", "RefsOn": "TRUE"}))
     z.build_harness()
     all_viol = []
     for name, consts in runs:
         consts = dict(consts, Dev=devs)
-        c = cfg("MCSpec", consts, invariants=["TypeOK", "NoReentry", "NoOverflow", "Once", "NoUnreachable", "Complete", "DanglingIsError", "RepeatSame", "EmitCase"],
+        c = cfg("MCSpec", consts, invariants=["TypeOK", "NoReentry", "NoOverflow", "Once", "NoUnreachable", "DanglingIsError", "RepeatSame", "EmitCase"] + ([] if dev else ["Complete"]),
                 properties=["Terminates"])
         res, vocab, cases, _ = mc_run(R, "MC_C11", c, name, workers=8)
         base = len(R.cases)
@@ -144,8 +147,12 @@ def check_C11(tier, replay=None):
         R.vocab = vocab
         log(f"{name}: {res['distinct']} distinct states, {len(cases)} cases, {res['wall']:.1f}s")
         traces, crashed = z.run_harness(vocab, cases, name)
-        tcfg = cfg("TraceSpec", {"File": consts["File"], "Dev": devs, "MaxCalls": consts["MaxCalls"]}, post="Accepted")
+        tcfg = cfg("TraceSpec", {"File": consts["File"], "Dev": devs, "MaxCalls": consts["MaxCalls"], "RefsOn": consts["RefsOn"]}, post="Accepted")
         viol, known, stale, drift = trace_run(R, "Trace_C11", tcfg, traces, "T_" + name)
+        R.stale += stale
+        for k in known:
+            for d in (k.get("devs") or ["?"]):
+                R.known.setdefault(d, k)
         R.extra.setdefault("crashed_workers", 0)
         R.extra["crashed_workers"] += crashed
         R.drift += len(drift)
